@@ -323,6 +323,12 @@ func ruleERRDEAD(pkgs ...string) func(p *Program, r *Reporter) {
 				r.Ob(id, funcName(fn), "error of "+name, c.Pos(), true, false, "discarded on purpose: "+why)
 				return
 			}
+			// the same exception wherever the code moved to, decided by what it rests on: the
+			// iteration only hands back what its callback returns, and this callback always returns nil
+			if dead && name == "ForEachRowUpdate" && pkgOf(fn) == "server" && callbackAlwaysNil(p, c) {
+				r.Ob(id, funcName(fn), "error of "+name, c.Pos(), true, false, "discarded on purpose: the callback passed to ForEachRowUpdate always returns nil")
+				return
+			}
 			r.Ob(id, funcName(fn), "error of "+name, c.Pos(), !dead, true,
 				ifs(!dead, "the error result is read", "the error returned by "+name+" is never read (overwritten before any test, or dropped): a failure of this step goes unnoticed and the operation is reported successful"))
 		})
@@ -1290,4 +1296,38 @@ func (lp *listProv) returnsList(h *ssa.Function, i int) bool {
 		any = true
 	}
 	return any
+}
+
+// callbackAlwaysNil: every function-typed argument of call c resolves to functions all of
+// whose returns yield the constant nil as their last result.
+func callbackAlwaysNil(p *Program, c *ssa.Call) bool {
+	found := false
+	for _, a := range c.Call.Args {
+		if !isFuncType(a.Type()) {
+			continue
+		}
+		fns := p.funcValues(a, 0, true)
+		if len(fns) == 0 {
+			return false
+		}
+		for _, f := range fns {
+			if len(f.Blocks) == 0 {
+				return false
+			}
+			for _, b := range f.Blocks {
+				ret, ok := b.Instrs[len(b.Instrs)-1].(*ssa.Return)
+				if !ok || isRecoverBlock(b) {
+					continue
+				}
+				if len(ret.Results) == 0 {
+					return false
+				}
+				if k, isC := retValue(ret, len(ret.Results)-1).(*ssa.Const); !isC || !k.IsNil() {
+					return false
+				}
+			}
+		}
+		found = true
+	}
+	return found
 }
